@@ -8,7 +8,7 @@ from cpverif.models import rowmodel as RM
 
 LEVEL = "exploration"
 RULE = (
-    "enumerated: header 0-3 x number of rows 0-6 (header rows included) x one bad row (rejected cell, or wrong item count "
+    "enumerated: header 0-3 x number of rows 0-6 (header rows included) x one bad row (rejected cell, or wrong item count / an empty line "
     "for delimited data) at every position incl. inside the header, or no bad row, or (cutplace.rows only) two rows with a rejected cell at every pair of positions x validation limit in {none, 0 .. "
     "rows+1} x API {cutplace.rows in yield mode, cutplace.validate, applications.main --until (in-process); sampled: two passes over one Reader, the CID named by a path whose file is rewritten for every case} x storage "
     "{delimited, fixed; thorough also ODS and XLSX}. Expected from M-reader with the (header, limit) window; for "
@@ -35,6 +35,8 @@ def build(kind, header, nrows, bad_at, bad_kind):
                 row = ["x%d" % r, "r%d" % r]
             elif bad_kind == "count":
                 row = [str(100 + r)]
+            elif bad_kind == "empty":
+                row = []  # an empty line: a row like any other (skipped as header row, rejected as data row)
             elif bad_kind == "duplicate":
                 row = [str(100 + r - 1), "r%d" % r]
         table.append(row)
@@ -167,7 +169,7 @@ def run(ctx):
             for nrows in range(0, 7):
                 bad_positions = [None] + list(range(1, nrows + 1))
                 for bad_at in bad_positions:
-                    kinds = ["cell"] if bad_at is None else (["cell", "count", "duplicate"] if kind == "delimited" else ["cell", "duplicate"])
+                    kinds = ["cell"] if bad_at is None else (["cell", "count", "duplicate", "empty"] if kind == "delimited" else ["cell", "duplicate"])
                     for bad_kind in kinds:
                         if bad_kind == "duplicate" and (bad_at is None or bad_at - 1 <= header):
                             continue
